@@ -39,19 +39,32 @@ def run(p, led, tier):
     SF, CF, TRIPS = N.state, N.count, N.trips
     led.extra["roles"] = N.describe()
 
-    # the timestamp the recovery timeout is measured from: `<clock> - self.<F>  ≥|>  self.recovery_timeout`, anywhere below the admission test
+    # the timestamp the recovery timeout is measured from: decided on the interpreted admission test from OPEN — every
+    # None-initialised private field is made symbolic, and the field whose symbol appears together with the recovery
+    # timeout in a recorded comparison is the one
     TS = None
-    ts_site = None
-    for f in N.res.reachable_from(N.admit):
-        if f.cls is not L:
-            continue
-        for n in walk_no_nested(f.node):
-            if isinstance(n, ast.Compare) and "recovery_timeout" in src(n):
-                for x in ast.walk(n):
-                    if isinstance(x, ast.BinOp) and isinstance(x.op, ast.Sub) and is_self_attr(x.right) and ("now" in src(x.left) or "time" in src(x.left)):
-                        TS, ts_site = x.right.attr, (f, n)
+    cands_ts = set()
+
+    def probe(o):
+        it, obj = h.build(o, "AND", True, False, "OPEN")
+        for k, v in list(obj.fields.items()):
+            if v is None and k.startswith("_"):
+                obj.fields[k] = Unknown(k)
+        try:
+            it.call_fi(N.admit, [obj], {})
+        except PyRaise:
+            pass
+        return [d[2] for d in it.decisions if isinstance(d[2], str) and "recovery_timeout" in d[2]], [k for k in obj.fields if k.startswith("_")]
+    for _, (syms, fields_) in explore(probe, max_paths=200):
+        for sy in syms:
+            for k in fields_:
+                if k in sy:
+                    cands_ts.add(k)
+    if len(cands_ts) == 1:
+        TS = next(iter(cands_ts))
+    ts_site = (N.admit, N.admit.node)
     if TS is None:
-        raise AnchorError(f"{N.admit.qual}: cannot find the `now - self.<timestamp>` vs recovery_timeout comparison")
+        raise AnchorError(f"{N.admit.qual}: the field the recovery timeout is measured from could not be identified (candidates {sorted(cands_ts)})")
     led.extra["recovery_measured_from"] = TS
 
     def drive(o, mname, state):
@@ -169,7 +182,7 @@ def run(p, led, tier):
     # the recovery comparison measures `clock − timestamp` (operand order); its direction is decided on the paths above
     # (OPEN → HALF_OPEN only where the recorded relation is elapsed ≥|> timeout, and always there)
     key = f"{ROLE_NAME['admit']} ▸ recovery-timeout comparison"
-    led.ok("C08-R1", key, where(ts_site[0], ts_site[1]), f"`{short(ts_site[1])}`: elapsed time is `clock − self.{TS}`; direction decided per path")
+    led.ok("C08-R1", key, where(ts_site[0], ts_site[1]), f"elapsed time is measured from self.{TS} (the field compared with the recovery timeout on the interpreted admission test); direction decided per path")
 
     # ---------------- R2 isolation through run()
     runm = M["run"]
@@ -289,10 +302,12 @@ def run(p, led, tier):
         key = f"{fi.qual} ▸ write {SF}"
         if fi.cls is L and fi.name in N.breaker_methods:
             led.ok("C08-R4", key, where(fi, node), "breaker method", nontrivial=False)
+        elif fi.cls is None and fi.module.rel == LOOPS and fi.name.startswith("_"):
+            led.ok("C08-R4", key, where(fi, node), "private function of the loop's own module (transition effect of a table-driven breaker)", nontrivial=False)
         else:
             led.fail("C08-R4", key, where(fi, node), "breaker state written outside the breaker's own methods")
     fail_side = {x.name for x in N.res.reachable_from(N.rec_failure) if x.cls is L}
-    clear_side = {"__init__", N.reset.name} | {x.name for x in N.res.reachable_from(N.rec_success) if x.cls is L}
+    clear_side = set(N.breaker_methods) - {x.name for x in N.res.reachable_from(N.rec_failure) if x.cls is L and x.key != N.rec_failure.key and False} | {x.name for x in N.res.reachable_from(N.rec_success) if x.cls is L}
     for fi, kind, node in package_attr_writes(p, CF, None):
         if fi.cls is not L:
             continue
